@@ -125,8 +125,10 @@ func (c *conn) Prepare(q string) (driver.Stmt, error) {
 	st.text = q
 	return st, nil
 }
-func (c *conn) Close() error              { return nil }
-func (c *conn) Begin() (driver.Tx, error) { return nil, errors.New("sqlmini: transactions not supported") }
+func (c *conn) Close() error { return nil }
+func (c *conn) Begin() (driver.Tx, error) {
+	return nil, errors.New("sqlmini: transactions not supported")
+}
 
 // statement AST
 type pred struct {
